@@ -29,6 +29,12 @@ type c18Cell struct {
 	// HostHdr: the caller overrides the Host header (requestHeader["Host"] = other.example); the
 	// certificate must still be verified for the URL's host, the CONNECT target stays the URL's
 	HostHdr bool `json:"host_header_override,omitempty"`
+	// HookTLS: the plain dial hook hands back a *tls.Conn of its own making (InsecureSkipVerify): the
+	// library must still establish and verify its own session for the URL's host
+	HookTLS bool `json:"plain_hook_returns_tls_conn,omitempty"`
+	// AppAuth: the caller's requestHeader carries a Proxy-Authorization of its own: the CONNECT
+	// request is governed by the proxy URL alone
+	AppAuth bool `json:"application_proxy_authorization_header,omitempty"`
 }
 
 const c18OtherHost = "other.example"
@@ -98,6 +104,16 @@ func init() {
 									c3.HostHdr = true
 									c18Cells = append(c18Cells, c3)
 								}
+								if wss && proxy == 0 && cert == 2 && hooks&3 != 0 && hooks&4 == 0 && h%2 == 0 {
+									c4 := c
+									c4.HookTLS = true
+									c18Cells = append(c18Cells, c4)
+								}
+								if (proxy == 1 || proxy == 2) && refuse == 0 && cert == 0 && h%3 == 0 {
+									c5 := c
+									c5.AppAuth = true
+									c18Cells = append(c18Cells, c5)
+								}
 								// the library itself does TLS to the backend: also with a nil TLSClientConfig
 								if wss && refuse == 0 && creds == 0 && cert < 2 && (proxy != 0 || hooks&4 == 0) && c.firstHopHook() != "" {
 									c2 := c
@@ -128,7 +144,7 @@ func init() {
 			return len(c18Cells) + len(c18EnvCells)
 		},
 		Run:          runC18,
-		Required:     []string{"dials", "connect_requests_checked", "tls_sessions_checked", "hook_logs_checked", "bad_certificates_refused", "dials_with_proxy_from_environment", "dials_with_host_header_override", "second_dials_after_a_refusal", "untrusted_backends_visited_before_by_a_trusting_dialer"},
+		Required:     []string{"dials", "connect_requests_checked", "tls_sessions_checked", "hook_logs_checked", "bad_certificates_refused", "dials_with_proxy_from_environment", "dials_with_host_header_override", "second_dials_after_a_refusal", "untrusted_backends_visited_before_by_a_trusting_dialer", "dials_whose_plain_hook_returns_a_tls_conn", "dials_with_an_application_proxy_authorization_header"},
 		CaseTimeoutS: 240,
 		MaxWorkers:   8,
 		Assumptions: []string{
@@ -303,16 +319,27 @@ func runC18(ctx *core.Ctx, out *core.Out) {
 			out.Count("dials_after_an_earlier_wss_dial_with_nil_tls_config", 1)
 		}
 	}
+	ownTLS := func(c net.Conn, err error) (net.Conn, error) {
+		if err != nil || !cell.HookTLS {
+			return c, err
+		}
+		tc := tls.Client(c, &tls.Config{InsecureSkipVerify: true})
+		if herr := tc.Handshake(); herr != nil {
+			c.Close()
+			return nil, herr
+		}
+		return tc, nil
+	}
 	if cell.Hooks&1 != 0 {
 		d.NetDial = func(network, addr string) (net.Conn, error) {
 			rec("NetDial", network, addr)
-			return net.DialTimeout("tcp", resolve(addr), 5*time.Second)
+			return ownTLS(net.DialTimeout("tcp", resolve(addr), 5*time.Second))
 		}
 	}
 	if cell.Hooks&2 != 0 {
 		d.NetDialContext = func(ctx context.Context, network, addr string) (net.Conn, error) {
 			rec("NetDialContext", network, addr)
-			return (&net.Dialer{}).DialContext(ctx, "tcp", resolve(addr))
+			return ownTLS((&net.Dialer{}).DialContext(ctx, "tcp", resolve(addr)))
 		}
 	}
 	if cell.Hooks&4 != 0 {
@@ -372,6 +399,16 @@ func runC18(ctx *core.Ctx, out *core.Out) {
 		reqHdr = http.Header{"Host": {c18OtherHost}}
 		wantHostHdr = c18OtherHost
 		out.Count("dials_with_host_header_override", 1)
+	}
+	if cell.AppAuth {
+		if reqHdr == nil {
+			reqHdr = http.Header{}
+		}
+		reqHdr["Proxy-Authorization"] = []string{"Basic YXBwOmFwcA=="}
+		out.Count("dials_with_an_application_proxy_authorization_header", 1)
+	}
+	if cell.HookTLS {
+		out.Count("dials_whose_plain_hook_returns_a_tls_conn", 1)
 	}
 	conn, _, derr := d.Dial(target, reqHdr)
 	out.Count("dials", 1)
@@ -516,7 +553,7 @@ func runC18(ctx *core.Ctx, out *core.Out) {
 			fail("handshake-in-clear-text", "the backend of a wss URL received the WebSocket request in clear text")
 			return
 		}
-		if bs.DoubleTLS != 0 {
+		if bs.DoubleTLS != 0 && !cell.HookTLS { // with HookTLS a second handshake inside the hook's session is exactly what must happen
 			fail("tls-inside-tls", "the backend found a second TLS handshake inside the TLS session: the library added TLS on a hop where NetDialTLSContext had already done it")
 			return
 		}
